@@ -418,6 +418,24 @@ Fixpoint seq_ok (closed : bool) (h : list (call * outcome)) : bool :=
 
 Definition seq_case_ok (h : list (call * outcome)) : bool := seq_ok false h.
 
+(* The same for a subscriber created without an announcement receiver: Announce has nothing
+   to queue on and returns nil before and after Close (step NCheck with has_recv = false). *)
+Definition expected_outcome_norecv (closed : bool) (c : call) : outcome :=
+  match c with
+  | CallAnnounce => ONil
+  | _ => expected_outcome closed c
+  end.
+
+Fixpoint seq_ok_norecv (closed : bool) (h : list (call * outcome)) : bool :=
+  match h with
+  | [] => true
+  | (c, o) :: r =>
+    outcome_eqb o (expected_outcome_norecv closed c) &&
+    seq_ok_norecv (closed || match c with CallClose => true | _ => false end) r
+  end.
+
+Definition seq_case_ok_norecv (h : list (call * outcome)) : bool := seq_ok_norecv false h.
+
 (* ------------------------------------------------------------------ *)
 (* Trace acceptor: replays an observed run on the transition system (stepf true).
 
